@@ -453,6 +453,15 @@ Theorem C10_roundtrip_writes_only_bookkeeping :
 Proof. exact roundtrip_writes_only_bookkeeping. Qed.
 Print Assumptions C10_roundtrip_writes_only_bookkeeping.
 
+(* the caller's callbacks are invoked from the retry loop and nowhere else (one call site each in
+   the sources: no second call from logging or tracing code, whatever the configuration), and the
+   client's headers are merged into a request on the first attempt of an execution only (what
+   another user of the client does to its headers between two attempts cannot reach the retry) *)
+Theorem C10_callbacks_called_from_the_loop_only :
+  callback_call_sites = [1; 1; 1]%nat /\ header_merge_once = true.
+Proof. exact callbacks_called_from_the_loop_only. Qed.
+Print Assumptions C10_callbacks_called_from_the_loop_only.
+
 (* ---------- several requests of one client ---------- *)
 
 (* the storage of conditions / hooks (Model/RetrySlices.v: backing arrays, len, cap; append in
